@@ -34,6 +34,72 @@ theorem in_token_answered_only_in_data_or_status_in_mps (c : DevConfig) (h : Lis
         ¬ ((finalM c Device.init h).setup.isIn = true ∧ (finalM c Device.init h).setup.length ≠ 0))) :=
   in_token_answered_only_in_data_or_status_in_of_inv c _ (inv_finalM c Device.init h inv_init) addr ep hr
 
+/-- **C07 (stage follows SETUP), every max packet size.** -/
+theorem stage_follows_setup_mps (c : DevConfig) (h : List Stim) :
+    let s := finalM c Device.init h
+    (s.stage = .dataIn → s.setup.isIn = true ∧ s.setup.length ≠ 0) ∧
+    (s.stage = .dataOut → s.setup.isIn = false ∧ s.setup.length ≠ 0) ∧
+    (s.stage = .statusOut → s.setup.isIn = true ∧ s.setup.length ≠ 0) ∧
+    (s.stage = .statusIn → ¬ (s.setup.isIn = true ∧ s.setup.length ≠ 0)) :=
+  have i := inv_finalM c Device.init h inv_init
+  ⟨i.data_in, i.data_out, i.status_out, i.status_in⟩
+
+/-- **C07 (status direction, OUT), every max packet size.** -/
+theorem out_data_answered_only_in_status_out_mps (c : DevConfig) (h : List Stim) (pid : Nat) (p : List Nat) (ok : Bool)
+    (hw : (finalM c Device.init h).sdWait = false)
+    (hr : (coreM c (finalM c Device.init h) (.data pid p ok)).2 ≠ .none) :
+    (finalM c Device.init h).stage = .statusOut ∧ (finalM c Device.init h).tokEp = 0 ∧
+    (finalM c Device.init h).tokPid = PID_OUT ∧
+    (finalM c Device.init h).setup.isIn = true ∧ (finalM c Device.init h).setup.length ≠ 0 ∧ ok = true :=
+  out_data_answered_only_in_status_out_of_inv c _ (inv_finalM c Device.init h inv_init) pid p ok hw hr
+
+/-- **C07 (every SETUP starts a fresh transfer), every max packet size**: a SETUP transaction contains no host
+handshake, so `stepM` runs it exactly as `Device.step` does. -/
+theorem setup_always_restarts_mps (c : DevConfig) (s : DevState) (bytes : List Nat) (f₁ f₂ : Resp)
+    (hlen : bytes.length = 8) :
+    let tx : List Stim := [⟨.token PID_SETUP s.address 0, f₁⟩, ⟨.data PID_DATA0 bytes true, f₂⟩]
+    let s₂ := finalM c s tx
+    let r₂ := finalM c { Device.init with address := s.address } tx
+    s₂.stage = r₂.stage ∧ s₂.setup = r₂.setup ∧ s₂.setup = parseSetup bytes ∧ s₂.sdWait = r₂.sdWait ∧
+    s₂.tokPid = r₂.tokPid ∧ s₂.tokEp = r₂.tokEp ∧
+    ((parseSetup bytes).type = TYPE_STANDARD →
+        s₂.hstate = r₂.hstate ∧ s₂.startPos = r₂.startPos ∧ s₂.txPid = r₂.txPid) ∧
+    respsM c s tx = [.none, .hs PID_ACK] := by
+  have hf : ∀ d : DevState, finalM c d [⟨.token PID_SETUP s.address 0, f₁⟩, ⟨.data PID_DATA0 bytes true, f₂⟩] =
+      Device.final c d [⟨.token PID_SETUP s.address 0, f₁⟩, ⟨.data PID_DATA0 bytes true, f₂⟩] := by
+    intro d
+    simp only [finalM, Device.final]
+    rw [stepM_eq_step_of c d _ (fun pid h => by cases h), stepM_eq_step_of c _ _ (fun pid h => by cases h)]
+  have hr : respsM c s [⟨.token PID_SETUP s.address 0, f₁⟩, ⟨.data PID_DATA0 bytes true, f₂⟩] =
+      (Device.run c s [⟨.token PID_SETUP s.address 0, f₁⟩, ⟨.data PID_DATA0 bytes true, f₂⟩]).map (·.2) := by
+    simp only [respsM, Device.run, List.map_cons, List.map_nil]
+    rw [stepM_eq_step_of c s _ (fun pid h => by cases h), stepM_eq_step_of c _ _ (fun pid h => by cases h)]
+  have := setup_always_restarts c s bytes f₁ f₂ hlen
+  simp only [hf, hr]
+  exact this
+
+/-- **C07 (other endpoints are stutter), tokens, every max packet size.** -/
+theorem other_endpoint_tokens_are_stutter_mps (c : DevConfig) (s : DevState) (pid ep : Nat)
+    (hep : ep ≠ 0) (hpid : pid ≠ PID_SETUP) :
+    coreM c s (.token pid s.address ep) = ({ s with tokPid := pid, tokEp := ep, sdWait := false }, .none) :=
+  other_endpoint_tokens_are_stutter c s pid ep hep hpid
+
+/-- **C07 (other endpoints are stutter), rest of the transaction, every max packet size.** -/
+theorem other_endpoint_transactions_are_stutter_mps (c : DevConfig) (s : DevState) (x : Stim)
+    (hep : s.tokEp ≠ 0) (hw : s.sdWait = false)
+    (hx : (∃ pid p ok, x.ev = .data pid p ok) ∨ (∃ pid, x.ev = .handshake pid)) :
+    coreM c s x.ev = (s, .none) ∧ (stepM c s x).2 = x.foreign := by
+  have key : coreM c s x.ev = (s, .none) := by
+    rcases hx with ⟨pid, p, ok, hx⟩ | ⟨pid, hx⟩
+    · have := (other_endpoint_transactions_are_stutter c s x hep hw (Or.inl ⟨pid, p, ok, hx⟩)).1
+      rw [hx] at this ⊢; exact this
+    · rw [hx]
+      simp only [coreM, onHandshakeM]
+      rw [if_neg (fun g => hep g.2.1)]
+  refine ⟨key, ?_⟩
+  simp only [stepM, key]
+  simp [Resp.isNone, hep]
+
 theorem coreRespsM_snoc (c : DevConfig) (hs : List Stim) (x : Stim) : ∀ d,
     coreRespsM c d (hs ++ [x]) = coreRespsM c d hs ++ [(coreM c (finalM c d hs) x.ev).2] := by
   induction hs with
